@@ -11,6 +11,7 @@
 mod evidence;
 mod explore_b;
 mod explore_f;
+mod hermetic;
 mod inst;
 mod json;
 mod minimise;
@@ -28,7 +29,7 @@ use std::collections::BTreeMap;
 use std::sync::atomic::{AtomicUsize, Ordering};
 use std::sync::Mutex;
 
-pub const PROBE_NAMES: [&str; 13] = [
+pub const PROBE_NAMES: [&str; 14] = [
     "fault_on_first_call",
     "fault_on_last_call_of_reference_run",
     "fault_after_reference_run",
@@ -41,6 +42,7 @@ pub const PROBE_NAMES: [&str; 13] = [
     "fault_in_bdf_jacobian",
     "fault_in_bdf_broyden_iteration",
     "fault_fired_in_nested_poll_run",
+    "fault_fired_in_sequential_multi_instance_run",
     "clamping_branch_ran",
 ];
 
@@ -96,6 +98,7 @@ struct Args {
     known: Option<String>,
     file: Option<String>,
     only: Option<String>,
+    terse: bool,
 }
 
 fn parse_args() -> Result<Args, String> {
@@ -115,6 +118,7 @@ fn parse_args() -> Result<Args, String> {
         known: None,
         file: None,
         only: None,
+        terse: false,
     };
     let mut i = 2;
     while i < argv.len() {
@@ -148,6 +152,7 @@ fn parse_args() -> Result<Args, String> {
                 a.only = Some(need(i)?);
                 i += 1;
             }
+            "--terse" => a.terse = true,
             s if !s.starts_with("--") && a.file.is_none() => a.file = Some(s.to_string()),
             s => return Err(format!("unknown argument {}", s)),
         }
@@ -174,7 +179,7 @@ fn plan_for(tier: &str) -> Plan {
     if tier == "thorough" {
         Plan { thorough: true, ftier: explore_f::FTier::thorough(), maxlen: 6, ins_extras: 3, swarm_runs: 400_000 }
     } else {
-        Plan { thorough: false, ftier: explore_f::FTier::quick(), maxlen: 5, ins_extras: 2, swarm_runs: 30_000 }
+        Plan { thorough: false, ftier: explore_f::FTier::quick(), maxlen: 5, ins_extras: 2, swarm_runs: 60_000 }
     }
 }
 
@@ -244,7 +249,7 @@ fn write_replay(dir: &str, a: &Args, fv: &FoundViolation, m: &minimise::Minimise
     let rec = run::execute(
         &m.spec,
         &m.budgets,
-        &run::ExecOpts { record: true, keep_tail: 200, rec_polls: false, check_isolation: true },
+        &run::ExecOpts { record: true, keep_tail: 200, rec_polls: false, check_isolation: true, rec_items: false },
     );
     let mut events = Vec::new();
     if let Some(ev) = rec.events.as_ref() {
@@ -323,12 +328,14 @@ fn cmd_replay(a: &Args) -> i32 {
         }
     };
     let want = j.get("class").and_then(|x| x.as_str()).unwrap_or("").to_string();
-    let res = run::execute(&spec, &budgets, &run::ExecOpts { record: true, keep_tail: 60, rec_polls: false, check_isolation: true });
-    println!("replay of {}", path);
-    println!("run: {}", spec.to_json().to_string_compact());
-    if let Some(ev) = res.events.as_ref() {
-        for (i, e) in ev.iter().enumerate() {
-            println!("  {}", e.to_json(res.first_seq_kept + i as u64).to_string_compact());
+    let res = run::execute(&spec, &budgets, &run::ExecOpts { record: true, keep_tail: 60, rec_polls: false, check_isolation: true, rec_items: false });
+    if !a.terse {
+        println!("replay of {}", path);
+        println!("run: {}", spec.to_json().to_string_compact());
+        if let Some(ev) = res.events.as_ref() {
+            for (i, e) in ev.iter().enumerate() {
+                println!("  {}", e.to_json(res.first_seq_kept + i as u64).to_string_compact());
+            }
         }
     }
     println!("fingerprint {:016x}", res.fp);
@@ -365,7 +372,28 @@ fn cmd_check(a: &Args) -> i32 {
     let only = a.only.clone();
     let enabled = |m: &str| only.as_deref().map(|o| o.split(',').any(|x| x == m)).unwrap_or(true);
 
-    // 0. determinism of the simulator itself, on a fixed slice, at two worker counts
+    let mut total = Stats::default();
+    let mut harness: Vec<String> = Vec::new();
+
+    // 0. hermeticity gate: first use of the crate in this process, on this thread
+    let mut gate_failed = false;
+    if enabled("gate") {
+        let (spec, budgets) = hermetic::gate_spec();
+        let res = run::execute(&spec, &budgets, &run::ExecOpts::default());
+        total.account_run((stats::MODE_GATE, 0, 0), &spec, &res.insts, res.fp);
+        match res.violation {
+            Some(v) => {
+                gate_failed = true;
+                println!("hermeticity gate: FAILED ({})", v.class);
+                total.violations.push(FoundViolation { id: (stats::MODE_GATE, 0, 0), spec, budgets, violation: v });
+            }
+            None => println!("hermeticity gate: {} instances in one sequential run (probe set, failing/abandoned/rejected workload, probe set again): identical histories", res.insts.len()),
+        }
+    }
+    let only = if gate_failed { Some("none".to_string()) } else { only };
+    let enabled = |m: &str| only.as_deref().map(|o| o.split(',').any(|x| x == m)).unwrap_or(true);
+
+    // 1. determinism of the simulator itself, on a fixed slice, at two worker counts
     let mut det = J::s("skipped");
     if enabled("det") {
         let (a1, d1) = determinism_slice(seed, 1.max(workers / 4));
@@ -384,8 +412,6 @@ fn cmd_check(a: &Args) -> i32 {
         println!("determinism slice: {} runs x2, digest {:016x}, identical", a1.len(), d1);
     }
 
-    let mut total = Stats::default();
-    let mut harness: Vec<String> = Vec::new();
     let alphabet = explore_b::alphabet();
 
     // 1. builder half: exhaustive chains
@@ -479,7 +505,10 @@ fn cmd_check(a: &Args) -> i32 {
     let exe = std::env::current_exe().ok();
     for sig in sig_order.iter().take(12) {
         let fv = by_sig[sig];
-        let m = minimise::minimise(&fv.spec, &fv.budgets, &fv.violation);
+        let m = match (fv.id.0 == stats::MODE_GATE, exe.as_ref()) {
+            (true, Some(exe)) => minimise::minimise_fresh(exe, &a.replays, &fv.spec, fv.budgets[0], &fv.violation),
+            _ => minimise::minimise(&fv.spec, &fv.budgets, &fv.violation),
+        };
         let msig = FoundViolation { id: fv.id, spec: m.spec.clone(), budgets: m.budgets.clone(), violation: m.violation.clone() }.signature();
         if let Some((_, what)) = known.iter().find(|(s, _)| *s == msig || s == sig) {
             println!("KNOWN-FINDING: property=C06 {} ({})", what, msig);
